@@ -972,12 +972,13 @@ where
 
 /// Returns an estimation of the number of files matching the search criteria
 fn stage_stats(groups: &[FileGroup<FileInfo>], filter: &FileGroupFilter) -> (usize, FileLen) {
-    let mut total_count = 0;
+    let mut total_count: usize = 0;
     let mut total_size = FileLen(0);
     for g in groups {
         let count = g.reported_count(filter);
         let size = g.file_len * count as u64;
-        total_count += count;
+        // `count` can be as large as the `--rf-under` value
+        total_count = total_count.saturating_add(count);
         total_size += size;
     }
     (total_count, total_size)
@@ -1512,13 +1513,19 @@ pub fn write_report_with_timestamp(
 
     // Building the filter resolves the roots in the file system, do it once
     let filter = config.group_filter();
-    let (redundant_count, redundant_size) = groups.iter().fold((0, FileLen(0)), |res, g| {
+    let (redundant_count, redundant_size) = groups.iter().fold((0usize, FileLen(0)), |res, g| {
         let count = g.redundant_count(&filter);
-        (res.0 + count, res.1 + g.file_len * count as u64)
+        (
+            res.0.saturating_add(count),
+            res.1 + g.file_len * count as u64,
+        )
     });
-    let (missing_count, missing_size) = groups.iter().fold((0, FileLen(0)), |res, g| {
+    let (missing_count, missing_size) = groups.iter().fold((0usize, FileLen(0)), |res, g| {
         let count = g.missing_count(&filter);
-        (res.0 + count, res.1 + g.file_len * count as u64)
+        (
+            res.0.saturating_add(count),
+            res.1 + g.file_len * count as u64,
+        )
     });
 
     // The offset from UTC is written to the report in hours and minutes. An offset with seconds
